@@ -87,6 +87,30 @@ func (g *gen) plainName() string {
 	}
 }
 
+var accessorTails = []string{"Report", "UpEverything", "OrCreate", "Summary", "Ready", "Details", "Everything", "AllFor"}
+
+// accessorNamed turns an ordinary method into one that carries a get…/set… name (getReport, setUpEverythingBatch …):
+// by name it is a getter/setter, everything else about it is an ordinary method.
+func (g *gen) accessorNamed(ms *methodSpec) *methodSpec {
+	pre := g.r.Pick([]string{"get", "set"})
+	for {
+		n := pre + g.r.Pick(accessorTails)
+		if g.names[n] || g.r.Bool() {
+			n += g.r.Pick(nouns)
+		}
+		if !g.names[n] {
+			g.names[n] = true
+			ms.name = n
+			break
+		}
+	}
+	ms.accRole = "getter"
+	if pre == "set" {
+		ms.accRole = "setter"
+	}
+	return ms
+}
+
 // form picks a method form that fits the class kind; body says whether a body is wanted.
 func (g *gen) form(cs *classSpec, body bool) string {
 	if cs.kind == "interface" {
@@ -590,6 +614,43 @@ func init() {
 			}
 		}
 	}
+	// 7. every method-level threshold once more on an accessor-NAMED method (getReport(a,b,c,d,e,f), a 31-line
+	// setUpEverything() …); the host class has 1-3 other ordinary methods, so no class-level verdict depends on it
+	for _, d := range offs() {
+		for _, dim := range []string{"methodLen", "params", "topIfs", "topSwitches", "conditionLines"} {
+			d, dim := d, dim
+			points = append(points, point{dim + ":" + tagOff(d) + "/class/accessor-named", func(g *gen) *classSpec {
+				ms := g.accessorNamed(g.plain("class"))
+				ms.params = g.r.Intn(3)
+				switch dim {
+				case "methodLen":
+					ms.target = tLen + d
+					if g.r.Bool() {
+						ms.body = append(ms.body, g.ifS(1, false))
+					}
+				case "params":
+					ms.params = tParams + d
+					ms.wrap = g.r.Intn(3)
+					ms.body = g.simples(g.r.Intn(3))
+				case "topIfs":
+					var body []stmtSpec
+					for i := 0; i < tRepeat+d; i++ {
+						body = append(body, g.tinyIf())
+					}
+					ms.body = g.mix(append(body, g.nestedCarrier(2)))
+				case "topSwitches":
+					var body []stmtSpec
+					for i := 0; i < tRepeat+d; i++ {
+						body = append(body, g.switchS(false))
+					}
+					ms.body = g.mix(body)
+				default:
+					ms.body = g.mix([]stmtSpec{{kind: "if", h: tCond + d, own: g.r.Chance(1, 3), body: g.simples(1)}, g.ifS(1, false)})
+				}
+				return g.host("class", false, ms)
+			}})
+		}
+	}
 }
 
 // mix shuffles top-level statements and sprinkles one-line fillers between them.
@@ -724,7 +785,11 @@ func (g *gen) randomClass() *classSpec {
 		all = append(all, g.gs(cs, g.r.Intn(5))...)
 	default:
 		for i, n := 0, g.r.Range(1, 5); i < n; i++ {
-			all = append(all, g.richMethod(cs))
+			m := g.richMethod(cs)
+			if i > 0 && g.r.Chance(1, 4) { // the first one keeps an ordinary name: the class has an ordinary method either way
+				g.accessorNamed(m)
+			}
+			all = append(all, m)
 		}
 		for i, n := 0, g.r.Intn(3); i < n; i++ {
 			all = append(all, g.shortPlain(cs))
@@ -735,7 +800,7 @@ func (g *gen) randomClass() *classSpec {
 	// constructors only where neither reading of "is a constructor a method" changes a verdict
 	non := 0
 	for _, m := range cs.methods {
-		if m.role == "plain" {
+		if m.role == "plain" && m.accRole == "" {
 			non++
 		}
 	}
@@ -796,8 +861,34 @@ func Rich(r *run.Rand) *Project {
 			{kind: "for", body: []stmtSpec{{kind: "if", h: tCond + 1, body: g.simples(1)}}}})
 		ms = append(ms, m)
 	}
+	{
+		m := g.accessorNamed(g.plain("class"))
+		m.body = g.mix([]stmtSpec{g.ifS(tCond+g.r.Range(0, 1), g.r.Bool()), g.ifS(tCond-1, false)})
+		ms = append(ms, m)
+	}
+	// every third of them carries an accessor name (core keeps 9 ordinary methods: no class-level verdict is touched)
+	for i, m := range ms {
+		if i%3 == 1 {
+			g.accessorNamed(m)
+		}
+	}
 	core.methods = g.shuffle(ms)
 	specs = append(specs, core)
+
+	// one sized kind with >= 13 findings spread over >= 3 files, sizes in no particular relation to the file names:
+	// three abstract classes with five one-line abstract methods of 6-12 parameters each (+ the ones in core)
+	for k := 0; k < 3; k++ {
+		cs := g.newClass("class")
+		cs.abstract, cs.final = true, false
+		sizes := g.r.Perm(7)
+		for i := 0; i < 5; i++ {
+			m := g.plain("abstract")
+			m.mods, m.lead, m.wrap = "public abstract", 0, 0
+			m.params = tParams + 1 + sizes[i]
+			cs.methods = append(cs.methods, m)
+		}
+		specs = append(specs, cs)
+	}
 
 	for _, n := range []int{tLarge + g.r.Range(0, 1), tLarge + g.r.Range(2, 4), tLarge - 1} {
 		cs := g.newClass("class")
